@@ -465,6 +465,9 @@ impl CheckedEuclid for BigInt {
     }
 
     fn checked_div_rem_euclid(&self, v: &Self) -> Option<(Self, Self)> {
+        if v.is_zero() {
+            return None;
+        }
         Some(self.div_rem_euclid(v))
     }
 }
